@@ -88,6 +88,66 @@ type Exec struct {
 	hashers []func() uint64
 	states  []uint64
 	mu      sync.Mutex // protects end-of-execution against the watchdog
+	timers  []*Timer
+	now     int64
+	timerSq int
+}
+
+// Timer is a pending virtual timer. Virtual time advances only when no thread
+// can run: the earliest pending timer fires then (timeouts are long compared
+// with computation), so a timer never races with runnable work.
+type Timer struct {
+	when    int64
+	seq     int
+	fire    func()
+	stopped bool
+	fired   bool
+}
+
+// AddTimer registers fire to run after d virtual nanoseconds.
+func AddTimer(d int64, fire func()) *Timer {
+	e := must()
+	if d < 0 {
+		d = 0
+	}
+	e.timerSq++
+	t := &Timer{when: e.now + d, seq: e.timerSq, fire: fire}
+	e.timers = append(e.timers, t)
+	return t
+}
+
+// Stop cancels the timer; it reports whether the timer was still pending.
+func (t *Timer) Stop() bool {
+	was := !t.stopped && !t.fired
+	t.stopped = true
+	return was
+}
+
+// Now returns the virtual clock in nanoseconds.
+func Now() int64 { return must().now }
+
+// fireTimer fires the earliest pending timer; false if there is none.
+func (e *Exec) fireTimer() bool {
+	best := -1
+	for i, t := range e.timers {
+		if t.stopped || t.fired {
+			continue
+		}
+		if best < 0 || t.when < e.timers[best].when || (t.when == e.timers[best].when && t.seq < e.timers[best].seq) {
+			best = i
+		}
+	}
+	if best < 0 {
+		e.timers = nil
+		return false
+	}
+	t := e.timers[best]
+	t.fired = true
+	if t.when > e.now {
+		e.now = t.when
+	}
+	t.fire()
+	return true
 }
 
 var cur *Exec
@@ -246,13 +306,21 @@ func (e *Exec) schedule(self *Thread) {
 		return
 	}
 	var en []*Thread
-	if !self.done && self.isEnabled() {
-		en = append(en, self)
-	}
-	first := len(en)
-	for _, t := range e.threads {
-		if t != self && !t.done && t.isEnabled() {
-			en = append(en, t)
+	var first int
+	for {
+		en = en[:0]
+		if !self.done && self.isEnabled() {
+			en = append(en, self)
+		}
+		first = len(en)
+		for _, t := range e.threads {
+			if t != self && !t.done && t.isEnabled() {
+				en = append(en, t)
+			}
+		}
+		// nobody can run: virtual time passes until the next timer
+		if len(en) > 0 || e.live == 0 || !e.fireTimer() {
+			break
 		}
 	}
 	if e.opts.Priority != nil && len(en)-first > 1 {
